@@ -545,6 +545,7 @@ func (cs *ContractSet) ParseContractFile(path, pkgPath string) error {
 	{
 		var out []line
 		var gname string
+		// first pass: collect the groups (a group may be defined after its first use)
 		for _, it := range items {
 			f := strings.Fields(it.text)
 			switch {
@@ -555,6 +556,17 @@ func (cs *ContractSet) ParseContractFile(path, pkgPath string) error {
 				gname = ""
 			case gname != "":
 				cs.Groups[gname] = append(cs.Groups[gname], it.text)
+			}
+		}
+		gname = ""
+		for _, it := range items {
+			f := strings.Fields(it.text)
+			switch {
+			case f[0] == "group" && len(f) == 2:
+				gname = f[1]
+			case f[0] == "end" && gname != "":
+				gname = ""
+			case gname != "":
 			case f[0] == "include" && len(f) == 2:
 				g, ok := cs.Groups[f[1]]
 				if !ok {
